@@ -38,6 +38,14 @@ def run(ctx):
   want = {'__name__': 'type(%s).__name__' % exc, '__qualname__': 'type(%s).__qualname__' % exc, '__module__': 'type(%s).__module__' % exc}
   ctx.check(all(assigned.get(k) == v for k, v in want.items()), 'C17.subclass', pcon, 'the proxy class takes the original class\'s name, qualname and module',
             'proxy class metadata is %s' % {k: assigned.get(k) for k in want}, au.loc(proxy.node), instance='metadata')
+  # nothing else is defined on the proxy class: a class attribute is found before __getattr__ forwards, and hides the original's
+  # attribute of that name
+  extra = [name for name, v, st in proxy.class_level_assigns() if name not in ('__module__', '__qualname__', '__name__', '__doc__', '__slots__')]
+  extra += [m_ for m_ in proxy.methods if m_ not in ('__init__', '__new__', '__getattr__', '__getattribute__', '__str__', '__repr__', '__reduce__', '__reduce_ex__',
+                                                     '__setattr__', '__delattr__', '__dir__')]
+  ctx.check(not extra, 'C17.forward-all', pcon, 'the proxy class defines nothing that could shadow an attribute of the original exception',
+            'the proxy class defines %s: a raised exception that carries data under that name shows Gin\'s value instead of its own' % sorted(extra),
+            au.loc(proxy.node), instance='no-shadowing')
   # ---- C17.traceback
   ok = bool(raises) and all(isinstance(n.exc, ast.Call) and isinstance(n.exc.func, ast.Attribute) and n.exc.func.attr == 'with_traceback'
                             and len(n.exc.args) == 1 and u(n.exc.args[0]) == exc + '.__traceback__' for n in raises)
